@@ -227,3 +227,12 @@ Example C09_nonvacuous :
   let r2 := fun a : alloc => match a with [0%nat] => [[0; 1]%nat] | _ => [[2]%nat] end in
   completion_irr (mkInst [2; 2; 3] 4) [r1; r2] [] = [[2]; [0; 1]]%nat.
 Proof. vm_compute. repeat split; reflexivity. Qed.
+
+(* the default step and bound of the model are the ones the SOURCE uses now (Generated/Anchors.v is
+   re-extracted from exhaustion.py on every run) *)
+From PB Require Generated.Anchors.
+Theorem C09_defaults_are_the_sources : forall I n,
+  default_step I = budget I * (Anchors.INCREASE_STEP_NUM # Anchors.INCREASE_STEP_DEN) /\
+  default_bound I n = budget I * (Qofnat n + inject_Z Anchors.INCREASE_BOUND_PLUS).
+Proof. intros I n. split; reflexivity. Qed.
+Print Assumptions C09_defaults_are_the_sources.
